@@ -98,8 +98,17 @@ func c15Pow2(k int) *mbig.Int { return new(mbig.Int).Lsh(mbig.NewInt(1), uint(k)
 func c15Alphabet(full bool) []*mbig.Int {
 	var a []*mbig.Int
 	add := func(v *mbig.Int) { a = append(a, v) }
-	for _, s := range []int64{0, 1, -1, 2, 127, 128, 255, 256, -128, -129, -127, -255, -256, -257, 32767, 32768, -32768, -32769, 65535, 65536} {
+	for _, s := range []int64{0, 1, -1, 2, 127, 128, 255, 256, -128, -129, -127, -255, -256, -257, 32767, 32768, -32768, -32769, 65535, 65536,
+		1<<31 - 1, 1 << 31, -(1 << 31), -(1 << 31) - 1, 1<<32 - 1, 1 << 32} {
 		add(mbig.NewInt(s))
+	}
+	// machine-word boundaries
+	for _, k := range []int{63, 64} {
+		p := c15Pow2(k)
+		add(new(mbig.Int).Sub(p, mbig.NewInt(1)))
+		add(p)
+		add(new(mbig.Int).Neg(p))
+		add(new(mbig.Int).Neg(new(mbig.Int).Add(p, mbig.NewInt(1))))
 	}
 	ks := []int{8 * 126, 8 * 127, 8 * 128, 8 * 255, 8 * 256, 5000}
 	if !full {
